@@ -459,6 +459,32 @@ package engine
 //@   ensures [C06.protocol] result1 != nil ==> arg(NewSocket, 1, protocol) == (eio4 ? 4 : 3) && arg(NewSocket, 1, transport) == result1 && arg(NewSocket, 1, ctx) == ctx
 //@   ensures [C06.rev3]     result1 != nil && !eio4 ==> bs.opts.AllowEIO3()
 
+// ---- C17: middlewares run in registration order, starting with the first (the CORS middleware, which Construct registers
+// before any application middleware can be added): a preflight is answered by it before anything else sees the request
+//@ func (*baseServer).ApplyMiddlewares(ctx, callback)
+//@   props C17, C05
+//@   requires bs != nil && callback != nil
+//@   requires forall k int :: 0 <= k && k < len(bs.middlewares) ==> bs.middlewares[k] != nil   // Use is never given a nil middleware
+//@   dyncall callback noeffect
+//@   modifies *
+//@   ensures [C17.mw.none]  len(old(bs.middlewares)) == 0 ==> calls(callback) == 1 && arg(callback, 1, 0) == nil && calls(apply) == 0
+//@   ensures [C17.mw.first] len(old(bs.middlewares)) > 0 ==> calls(apply) == 1 && arg(apply, 1, i) == 0 && calls(callback) == 0
+//@ func (*baseServer).ApplyMiddlewares.apply(i)
+//@   props C17
+//@   requires bs != nil && 0 <= i && i < len(bs.middlewares) && bs.middlewares[i] != nil
+//@   modifies *
+// the continuation handed to middleware i: an error ends the chain with that error; otherwise the next middleware in
+// registration order runs, and after the last one the request handler
+//@ func (*baseServer).ApplyMiddlewares$1$1(err)
+//@   props C17, C05
+//@   requires bs != nil && callback != nil && 0 <= i && i < len(bs.middlewares)
+//@   requires forall k int :: 0 <= k && k < len(bs.middlewares) ==> bs.middlewares[k] != nil
+//@   dyncall callback noeffect
+//@   modifies *
+//@   ensures [C17.mw.error] err != nil ==> calls(callback) == 1 && arg(callback, 1, 0) == err && calls(apply) == 0
+//@   ensures [C17.mw.next]  err == nil && old(i) + 1 < len(old(bs.middlewares)) ==> calls(apply) == 1 && arg(apply, 1, i) == old(i) + 1 && calls(callback) == 0
+//@   ensures [C17.mw.done]  err == nil && old(i) + 1 >= len(old(bs.middlewares)) ==> calls(callback) == 1 && arg(callback, 1, 0) == nil && calls(apply) == 0
+
 // ---- C17: the headers listener of a session's transport. It runs for every HTTP response of the session; the response
 // to the request that carries no session id - the handshake - and only that one gets the cookie (whose value is the
 // session id, written to a copy: the configured cookie is shared by all sessions) and the initial_headers event
